@@ -26,9 +26,21 @@ def seeds():
     return '\n'.join(out)
 
 
+def checks():
+    out = ['| property | level | deciding technique | quick-tier evaluations | distinct non-trivial |', '|---|---|---|---|---|']
+    for f in sorted(glob.glob(os.path.join(root, 'tools', 'meta.d', 'C*.json'))):
+        pid = os.path.basename(f)[:-5]
+        m = json.load(open(f))
+        ev = os.path.join(root, 'evidence', pid + '.json')
+        e = json.load(open(ev)) if os.path.exists(ev) else None
+        n, nt = (e['coverage']['evaluations'], e['coverage']['distinct_nontrivial']) if e and e.get('tier') == 'quick' else ('', '')
+        out.append(f"| {pid} | {m['level']} | {m['technique'].replace('|', '/')} | {n} | {nt} |")
+    return '\n'.join(out)
+
+
 p = os.path.join(root, 'DESIGN.md')
 s = open(p).read()
-for name, body in (('findings', findings()), ('seeds', seeds())):
+for name, body in (('findings', findings()), ('seeds', seeds()), ('checks', checks())):
     b, e = f'<!-- BEGIN {name} -->', f'<!-- END {name} -->'
     if b in s:
         s = s[:s.index(b) + len(b)] + '\n' + body + '\n' + s[s.index(e):]
